@@ -24,6 +24,8 @@ def run(chk, args):
            invariants=INV, properties=["ResetDrawsNew"])
     mc_gym(chk, "SA4", N=4, gameset="SA", comps={"sac"} if q else {"sa", "sac"}, reps={0}, gaps={"exploitability", "l1_norm"} if q else ALL_GAPS,
            budgets="BudgetsNone" if q else "BudgetsAll", max_resets=1, max_ops=3 if q else 5, invariants=INV, timeout=3000)
+    # liveness, under weak fairness of "reveal something": an episode of reveals eventually reports done, and done is stable
+    chk.model_check("MC_Gym", "MC_Gym_live.cfg")
     validate_gym_traces(chk, [
         {"kind": "walk", "ns": "3,4" if q else "3,4,5", "count": 24 if q else 120, "classes": CLASSES},
         {"kind": "walk", "source": "family", "ns": "3,4" if q else "3,4,5", "count": 24 if q else 120,
